@@ -248,17 +248,22 @@ def gen_array_case(rng):
         mask = np.ones(len(x), dtype=bool)
         real = lambda: _real(A.array_discrete, x, vals, thr, **kw)
         tol = 0.0
+    if x.size % 2 == 0 and x.size > 2 and rng.rand() < 0.3:
+        x = x.reshape(2, -1)          # the closures see the reshaped array: n-d inputs, compared flattened
+        info["shape"] = list(x.shape)
     return op, real, info, tol, mask, extra
 
 
 def corr_arrays(ctx, out):
     rng = np.random.RandomState(ctx.seed + 1901)
-    n = ctx.scale(3000, 40000)
+    n = ctx.scale(6000, 40000)
     cases = [gen_array_case(rng) for _ in range(n)]
     res = run_driver([c[0] for c in cases])
     seen = set()
     for (op, real, info, tol, mask, extra), r in zip(cases, res):
         rr = real()
+        if rr[0] == "ok":
+            rr = ("ok", rr[1].ravel(), rr[2])
         out["evaluations"] += 1
         warn_model = None
         if extra == "warn" and isinstance(r, list) and len(r) == 2 and isinstance(r[1], bool):
@@ -314,10 +319,17 @@ def gen_field(rng):
     lm = float(rng.choice([0.5, 1.0, 2.0, -0.5, 0.0]))
     norm = {"none": None, "lognormal": gs.normalizer.LogNormal(), "boxcox": gs.normalizer.BoxCox(lmbda=lm)}[nk]
     trend = None if rng.rand() < 0.65 else float(rng.choice([0.0, 0.75, -1.0]))
-    model = gs.Gaussian(dim=1, var=var, len_scale=2.0, nugget=nug)
+    mesh = str(rng.choice(["unstructured", "unstructured", "structured2d", "unstructured2d"]))
+    dim = 1 if mesh == "unstructured" else 2
+    model = gs.Gaussian(dim=dim, var=var, len_scale=2.0, nugget=nug)
     srf = gs.SRF(model, mean=mean, normalizer=norm, trend=trend, seed=int(rng.randint(1 << 30)))
-    n = int(rng.choice([1, 2, 4, 7]))
-    srf.set_pos(np.linspace(0.0, 10.0, n), "unstructured")
+    if mesh == "structured2d":
+        nx, ny = int(rng.choice([1, 2, 3])), int(rng.choice([2, 3]))
+        n = nx * ny
+        srf.set_pos((np.linspace(0.0, 4.0, nx), np.linspace(0.0, 3.0, ny)), "structured")
+    else:
+        n = int(rng.choice([1, 2, 4, 7]))
+        srf.set_pos(np.linspace(0.0, 10.0, n) if dim == 1 else rng.rand(2, n) * 5, "unstructured")
     raw = np.sqrt(model.sill) * rng.randn(n)
     if nk == "boxcox" and abs(lm) > 1e-8:
         # keep mean + raw inside the open denormalize range most of the time
@@ -327,9 +339,10 @@ def gen_field(rng):
         raw = y - mean
     with warnings.catch_warnings():
         warnings.simplefilter("ignore")
-        srf.post_field(raw, "field", process=True)
+        srf.post_field(raw.reshape(srf.field_shape), "field", process=True)
     cfg = {"cmean": f2b(mean), "sill": f2b(model.sill), "trend": _ob(trend), "norm": nk, "norm_lmbda": f2b(lm)}
-    desc = {"mean": mean, "sill": float(model.sill), "trend": trend, "normalizer": nk, "lmbda": lm if nk == "boxcox" else None}
+    desc = {"mean": mean, "sill": float(model.sill), "trend": trend, "normalizer": nk, "lmbda": lm if nk == "boxcox" else None,
+            "mesh": mesh, "shape": list(srf.field_shape)}
     return srf, cfg, desc
 
 
@@ -393,14 +406,14 @@ def corr_fields(ctx, out):
     so each step is compared on its own (no error accumulation), together with field_names and all stored arrays"""
     from gstools.transform.field import _pre_process
     rng = np.random.RandomState(ctx.seed + 1902)
-    nh = ctx.scale(600, 8000)
+    nh = ctx.scale(1500, 8000)
     ops, metas = [], []
     for h in range(nh):
         srf, cfg, desc = gen_field(rng)
         steps = int(rng.choice([1, 2, 3, 5]))
         for t in range(steps):
             names = list(srf.field_names)
-            state = [np.array(srf[nm], dtype=float) for nm in names]
+            state = [np.array(srf[nm], dtype=float).ravel() for nm in names]
             reserved = [a for a in dir(srf) if a not in names]
             call, kw, mk, mname = gen_call(rng, srf, desc)
             fsel = str(rng.choice(names)) if rng.rand() < 0.93 else "missing"
@@ -419,12 +432,17 @@ def corr_fields(ctx, out):
                 with warnings.catch_warnings():
                     warnings.simplefilter("ignore")
                     with np.errstate(all="ignore"):
-                        pre = _pre_process(srf, d, keep) if process else d
+                        pre = np.asarray(_pre_process(srf, d.reshape(srf.field_shape), keep)).ravel() if process else d
                 um = 0.0 if (process and not keep) else desc["mean"]
                 z = (pre - um) / np.sqrt(desc["sill"])
             rr = _real(srf.transform, mname, field=fsel, store=store, process=process, **kws)
+            if rr[0] == "ok":
+                if list(rr[1].shape) != list(srf.field_shape):
+                    rr = ("exc", f"shape{rr[1].shape}", [])
+                else:
+                    rr = ("ok", rr[1].ravel(), rr[2])
             after_names = list(srf.field_names)
-            after = [np.array(srf[nm], dtype=float) for nm in after_names]
+            after = [np.array(srf[nm], dtype=float).ravel() for nm in after_names]
             op = dict(op="c19_history", reserved=reserved, names=names, fields=[fbits(a) for a in state], calls=[call])
             op.update(cfg)
             ops.append(op)
@@ -444,7 +462,7 @@ def corr_fields(ctx, out):
         out["_distinct"].add(("field",) + key)
         d = out["distribution"]
         for k2 in ("field:" + mk, f"field:process={meta['process']},keep_mean={meta['keep_mean']}",
-                   "field:normalizer=" + desc["normalizer"], "field:result:" + ("ok" if rr[0] == "ok" else rr[1]),
+                   "field:normalizer=" + desc["normalizer"], "field:mesh=" + desc["mesh"], "field:result:" + ("ok" if rr[0] == "ok" else rr[1]),
                    "field:store=" + (str(meta["store"]) if isinstance(meta["store"], bool) else "name")):
             d[k2] = d.get(k2, 0) + 1
         case = {k: meta[k] for k in ("desc", "method", "name", "kw", "field", "store", "process", "keep_mean", "names", "state")}
@@ -564,7 +582,7 @@ def search(ctx, deep=False):
     import gstools as gs
     from gstools.transform import array as A
     rng = np.random.RandomState(ctx.seed + 1950)
-    N = ctx.scale(200000, 1000000) * (2 if deep else 1)
+    N = ctx.scale(400000, 1000000) * (2 if deep else 1)
     ALPHA = 1e-9                                  # per-test false-alarm probability
     ks_thr = float(stats.kstwo.isf(ALPHA, N))
     SIG = 6.5
